@@ -438,6 +438,11 @@ def gc_scenarios(tier, stores):
     for g in (True, False):
         scs.append(dict(name="gcC-%s" % ("G" if g else "g"), profile="gc", contents=["m1", "a1", "a2"], algs=["sha256"], depth=(20, 30), num=(15, 150),
                         stores=stores, obs=[], nrepos=1, cfg={"untagged": False, "dangling": False, "withSubj": True, "grace": g, "emptyRepo": False}))
+    # one image, two repositories, empty repository pruning on: collections between the blob uploads and the manifest push of
+    # an image (new repository), recent manifests over aged layers
+    for u, g in ((True, True), (False, True), (True, False)):
+        scs.append(dict(name="gcD-%s%s" % ("U" if u else "u", "G" if g else "g"), profile="gc", contents=["m1"], algs=["sha256"], depth=(14, 24), num=(20, 150),
+                        stores=stores, obs=[], nrepos=2, cfg={"untagged": u, "dangling": False, "withSubj": False, "grace": g, "emptyRepo": True}))
     scs[0]["mc_contents"] = ["m1", "a1"]
     scs[0]["mc_depth"] = (4, 5)
     return scs
